@@ -31,21 +31,21 @@ type thread struct {
 
 // Exec is one controlled execution.
 type Exec struct {
-	threads  []*thread
-	cur      int
-	devs     []Dev
-	di       int
-	npoints  int
-	Running  []uint8 // per point: thread running when the point was reached (255: none)
-	NEnabled []uint8 // per point: number of enabled threads
-	Steps    int
-	Switches int
-	OnSwitch func(step int) // census check
-	fin      chan struct{}
-	TraceH   uint64
-	Sites    []int32 // site of each point (only when KeepSites)
+	threads   []*thread
+	cur       int
+	devs      []Dev
+	di        int
+	npoints   int
+	Running   []uint8 // per point: thread running when the point was reached (255: none)
+	NEnabled  []uint8 // per point: number of enabled threads
+	Steps     int
+	Switches  int
+	OnSwitch  func(step int) // census check
+	fin       chan struct{}
+	TraceH    uint64
+	Sites     []int32 // site of each point (only when KeepSites)
 	KeepSites bool
-	Diverged string
+	Diverged  string
 }
 
 func (e *Exec) enabledList(running int) []int {
